@@ -144,6 +144,8 @@ class ExprMixin:
             return V(FN, FuncRef("class", cls=ck))
         if n in self.reg.classes:
             return V(FN, FuncRef("class", cls=n))
+        if hasattr(self, "bi_" + n) and n not in self.module_funcs:
+            return V(FN, FuncRef("builtin", name=n))
         if n in self.reg.contracts:
             return V(FN, FuncRef("contract", c=self.reg.contracts[n]))
         if n in self.module_funcs:
@@ -216,6 +218,14 @@ class ExprMixin:
                 raise Unsupported("symbolic tuple index", node)
             i = idx.term.as_long()
             return obj.term[i]
+        if is_obj(obj.kind):
+            key = self.const_str(idx) if idx.kind == ops.STR else None
+            if key is not None:
+                ck = self.reg.lookup_method(obj.kind.target.cls, f"__getitem__:{key}")
+                if ck is not None:
+                    outs = list(self.apply_contract(ck, [obj], {}, st, node))
+                    if len(outs) == 1:
+                        return outs[0][0]
         c = self.method_contract(obj, "__getitem__")
         if c is not None:
             outs = list(self.apply_contract(c, [obj, idx], {}, st, node))
